@@ -276,6 +276,107 @@ pub fn roundtrip_body(case: &XmlCase, ctx: &mut CaseCtx) -> PropResult {
     Ok(())
 }
 
+/// A database-known property holding a value of another type than the database declares (a DOM is
+/// untyped; tools build such DOMs from JSON or Lua numbers). Outside the conversions rbx_xml
+/// documents in conversion.rs the value is written in its own type and must come back unchanged.
+#[derive(Clone, Debug, Serialize, Deserialize)]
+pub struct Mistyped {
+    pub class_sel: u32,
+    pub prop_sel: u32,
+    pub ty_sel: u32,
+    pub seed: u64,
+}
+
+fn mistyped_body(c: &Mistyped, ctx: &mut CaseCtx) -> PropResult {
+    use rbx_types::VariantType as T;
+    let classes = crate::dbview::all_class_names();
+    let class = &classes[c.class_sel as usize % classes.len()];
+    let cp = crate::dbview::class_props(class);
+    let plain: Vec<_> = cp.plain.iter().filter(|s| !s.view.is_alias && s.name == s.view.canonical && s.view.canonical != "Name" && s.view.ser.is_some()).collect();
+    if plain.is_empty() {
+        ctx.excluded("class without plain serializable properties");
+        return Ok(());
+    }
+    // one case in four looks for a 32-bit number property and gives it the 64-bit type
+    let narrow: Vec<_> = plain.iter().copied().filter(|s| matches!(s.view.canonical_ty.variant_type(), T::Int32 | T::Float32)).collect();
+    let widen = c.ty_sel % 4 == 0 && !narrow.is_empty();
+    let sp = if widen { narrow[c.prop_sel as usize % narrow.len()] } else { plain[c.prop_sel as usize % plain.len()] };
+    if !crate::dbview::ser_conflicts(class).is_empty() {
+        ctx.excluded("class with shared serialized names (open finding of C08)");
+        return Ok(());
+    }
+    let declared = [sp.view.canonical_ty.variant_type(), sp.view.ser.as_ref().unwrap().ty.variant_type()];
+    let candidates: Vec<T> = crate::gen::vals::xml_types()
+        .into_iter()
+        .filter(|u| !matches!(u, T::Ref | T::SharedString | T::Content | T::ContentId | T::BrickColor | T::Tags | T::Attributes | T::MaterialColors | T::UniqueId))
+        .filter(|u| {
+            declared.iter().all(|t| {
+                u != t
+                    && !matches!(
+                        (u, t),
+                        (T::Int32, T::Int64)
+                            | (T::Float32, T::Float64)
+                            | (T::Int32, T::BrickColor)
+                            | (T::Color3, T::Color3uint8)
+                            | (T::BinaryString, T::Tags)
+                            | (T::BinaryString, T::Attributes)
+                            | (T::BinaryString, T::MaterialColors)
+                            | (T::EnumItem, T::Enum)
+                            | (T::Content, T::ContentId)
+                    )
+            })
+        })
+        .collect();
+    let u = match (widen, declared[0]) {
+        (true, T::Int32) => T::Int64,
+        (true, T::Float32) => T::Float64,
+        _ => candidates[c.ty_sel as usize % candidates.len()],
+    };
+    let mut profile = crate::gen::vals::ValProfile::xml();
+    profile.min_keypoints = 2;
+    let val = forest::value_from_seed(u, profile, c.seed);
+    ctx.label(match (u, declared[0]) {
+        (T::Int64, T::Int32) => "wide_integer_in_narrow_property",
+        (T::Float64, T::Float32) => "wide_float_in_narrow_property",
+        _ => "other_type_pair",
+    });
+    ctx.nontrivial();
+    let f = GForest {
+        nodes: vec![
+            crate::gen::forest::GNode { parent: None, class: class.clone(), name: "holder".into(), props: vec![(sp.name.clone(), val.clone())] },
+            crate::gen::forest::GNode { parent: None, class: class.clone(), name: "plain".into(), props: vec![] },
+        ],
+        roots: vec![0, 1],
+    };
+    let built = forest::build(&f, BuildMode::Builder, None);
+    let roots = built.root_refs(&f);
+    let (enc, dec) = Pairing::Default.options();
+    let bytes = match write_xml(&built.dom, &roots, enc) {
+        Ok(b) => b,
+        Err(_) => {
+            // a conversion the writer refuses is a clean error, not this check's subject
+            ctx.excluded("writer rejects the type pair");
+            return Ok(());
+        }
+    };
+    let decoded = read_xml(&bytes, dec)?;
+    let act = forest::observe(&decoded);
+    let holder = act.roots.iter().find(|r| r.name == "holder");
+    let got = holder.and_then(|h| h.props.get(&sp.view.roundtrip).or_else(|| h.props.get(&sp.name)));
+    let ok = got.map(|g| oracle::val_matches(&val, g, &Norm::xml())).unwrap_or(false);
+    ensure!(
+        ok,
+        format!("xml-roundtrip:mistyped:{:?}-in-{:?}", u, declared[0]),
+        "{class}.{} (declared {:?}) held {:?}; after the XML round trip it is {:?} (all properties: {:?})",
+        sp.name,
+        declared[0],
+        val,
+        got,
+        holder.map(|h| h.props.keys().cloned().collect::<Vec<_>>())
+    );
+    Ok(())
+}
+
 pub fn run(ctx: &Ctx) -> PropertyReport {
     let mut rep = PropertyReport::new(
         "C02",
@@ -307,6 +408,15 @@ pub fn run(ctx: &Ctx) -> PropertyReport {
         ] {
             r.floor(l, cases / 400);
         }
+        rep.push(r);
+    }
+    if sub.runs("mistyped") {
+        let cases = ctx.cfg.cases(60_000, 3_000_000);
+        let strat = || (any::<u32>(), any::<u32>(), any::<u32>(), any::<u64>()).prop_map(|(class_sel, prop_sel, ty_sel, seed)| Mistyped { class_sel, prop_sel, ty_sel, seed });
+        let mut r = ctx.run_prop("mistyped", cases, strat, mistyped_body);
+        r.floor("wide_integer_in_narrow_property", cases / 100);
+        r.floor("wide_float_in_narrow_property", cases / 100);
+        r.notes.push("a database-known property of any class holding a value of a type the database does not declare for it (outside rbx_xml's documented conversions): written in its own type, it must come back unchanged".into());
         rep.push(r);
     }
     if sub.runs("large") {
